@@ -336,10 +336,11 @@ Lemma dec_fixed_unfold block len ch k hs hp :
   (let c := TCFixedArr len ch k in
    if isDynamicType c then
      do ho <- decodeABILength block hp;
+     if (len >? 0) && ((len - 1) * 32 >=? zlen block - (hs + ho)) then Err ENotEnoughValue else
      if len <? 0 then Panic else
      do (_, x) <- walkDynamicChildArrayABIBytes_rep (decodeABIElement block ch) c len (hs + ho) (hs + ho);
      Ok (32, x)
-   else decodeABIFixedArrayBytes (decodeABIElement block ch) c len hs hp).
+   else decodeABIFixedArrayBytes block (decodeABIElement block ch) c ch len hs hp).
 Proof. reflexivity. Qed.
 
 Lemma dec_dyn_unfold block ch k hs hp :
@@ -452,7 +453,7 @@ Lemma all_ok_array block ch :
   forall vs, forallb (well_typed (ty_of ch)) vs = true ->
     Forall (fun it => zlen (snd it) < 2 ^ 32) (array_items (ty_of ch) vs) ->
     forallb counts_ok vs = true ->
-    all_ok block (repeat (decodeABIElement block ch) (length vs)) (array_items (ty_of ch) vs) (map (cv_of ch) vs).
+    all_ok block (@repeat dec_fn (decodeABIElement block ch) (length vs)) (array_items (ty_of ch) vs) (map (cv_of ch) vs).
 Proof.
   intros Hc. induction vs as [|v vs IH]; intros Hwt Hb Hcnt; [constructor|].
   cbn [forallb array_items map length repeat] in *. fold (array_items (ty_of ch) vs) in *.
@@ -500,17 +501,35 @@ Proof.
     cbn [dynamic] in *. destruct (dynamic (ty_of ch)) eqn:Ed; cbn [elem_ok].
     + intros hs hp o Ho Hw He. rewrite dec_fixed_unfold. cbv zeta. rewrite Hdyn.
       rewrite (decodeABILength_word _ _ _ Hw Ho). cbn [bind].
+      destruct (embedded_head_tail _ _ _ He) as [Hh Ht].
+      pose proof (embedded_bound _ _ _ He) as Hbd.
+      rewrite head_tail_length in Hsz, Hbd.
+      pose proof (tlen_nonneg (array_items (ty_of ch) vs)) as Htn.
+      assert (Hge : 32 * Z.of_nat (length vs) <= hlen (array_items (ty_of ch) vs)).
+      { apply hlen_array_ge. intros v _. rewrite Ed. lia. }
+      replace ((len >? 0) && ((len - 1) * 32 >=? zlen block - (hs + o))) with false
+        by (symmetry; apply andb_false_iff; right; rewrite Z.geb_leb; apply Z.leb_gt; lia).
       replace (len <? 0) with false by (symmetry; apply Z.ltb_ge; lia).
       unfold walkDynamicChildArrayABIBytes_rep. rewrite loop_elems_nat, loop_nat_list, Hn.
-      destruct (embedded_head_tail _ _ _ He) as [Hh Ht].
-      rewrite head_tail_length in Hsz.
       rewrite (walk_list_ok block _ _ _ Hok (hs + o) (hs + o) (hlen (array_items (ty_of ch) vs)));
         [reflexivity|apply hlen_nonneg|lia|exact Hh|exact Ht].
     + intros hs hp He. rewrite dec_fixed_unfold. cbv zeta. rewrite Hdyn.
       unfold decodeABIFixedArrayBytes.
+      pose proof (array_static_all (ty_of ch) vs Ed) as Hst.
+      pose proof (embedded_bound _ _ _ He) as Hbd.
+      rewrite head_tail_length, (tails_static_tlen _ Hst), Z.add_0_r in Hbd.
+      assert (Hguard : (len >? 0) && occupiesHeadBytes ch && ((len - 1) * 32 >=? zlen block - hp) = false).
+      { destruct (occupiesHeadBytes ch) eqn:Eo; [|rewrite andb_false_r; reflexivity].
+        apply andb_false_iff; right. rewrite Z.geb_leb. apply Z.leb_gt.
+        assert (32 * Z.of_nat (length vs) <= hlen (array_items (ty_of ch) vs)).
+        { apply hlen_array_ge. intros v Hv. rewrite Ed.
+          unfold good in Hgc. rewrite !andb_true_iff in Hgc. destruct Hgc as [[[Hc' Hw'] _] _].
+          apply (occ_min ch Hc' Hw' Eo v); [|exact Ed].
+          rewrite forallb_forall in Hall. apply Hall. exact Hv. }
+        lia. }
+      rewrite Hguard.
       replace (len <? 0) with false by (symmetry; apply Z.ltb_ge; lia).
       rewrite loop_elems_nat, loop_nat_list, Hn.
-      pose proof (array_static_all (ty_of ch) vs Ed) as Hst.
       rewrite head_tail_static in He by exact Hst.
       rewrite (walk_list_static block _ _ _ Hok Hst hs hp He). cbn [bind].
       rewrite head_tail_length, (tails_static_tlen _ Hst), Z.add_0_r. reflexivity.
@@ -521,7 +540,8 @@ Proof.
     cbn [enc] in *. fold (array_items (ty_of ch) vs) in *.
     destruct (counts_list _ Hcnt) as [Hcl Hcs].
     rewrite zlen_app, zlen_word in Hsz.
-    pose proof (all_ok_array block ch IH vs Hwt (items_bound _ ltac:(lia)) Hcs) as Hok.
+    assert (Hsz' : zlen (head_tail (array_items (ty_of ch) vs)) < 2 ^ 32) by lia.
+    pose proof (all_ok_array block ch IH vs Hwt (items_bound _ Hsz') Hcs) as Hok.
     change (cv_of (TCDynArr ch k) (VList vs)) with (CV (Some (TCDynArr ch k)) (map (cv_of ch) vs) GNil).
     cbn [dynamic elem_ok]. intros hs hp o Ho Hw He.
     rewrite dec_dyn_unfold. rewrite (decodeABILength_word _ _ _ Hw Ho). cbn [bind].
@@ -536,7 +556,7 @@ Proof.
                      ((Z.of_nat (length vs) - 1) * 32 >=? zlen block - (hs + o + 32)) = false).
     { destruct (occupiesHeadBytes ch) eqn:Eo; [|rewrite andb_false_r; reflexivity].
       destruct (Z.of_nat (length vs) >? 0) eqn:Ez; [|reflexivity]. cbn [andb].
-      apply Z.geb_leb, Z.leb_gt.
+      rewrite Z.geb_leb. apply Z.leb_gt.
       assert (32 * Z.of_nat (length vs) <= hlen (array_items (ty_of ch) vs)).
       { apply hlen_array_ge. intros v Hv. destruct (dynamic (ty_of ch)) eqn:Ed; [lia|].
         unfold good in Hg. cbn [tc_consistent ty_of wf_ty] in Hg. rewrite !andb_true_iff in Hg.
